@@ -16,7 +16,7 @@ RULE = ("schemas with constant, callable and absent defaults on every field fami
         "mutations: after each step the values AND the user-defined flag of every path (all depths, list items) are "
         "compared with a prediction computed from the state observed before the step; non-trivial = >= 1 accepted "
         "assignment, >= 1 rejected one and >= 1 reset judged; distinct = distinct (schema, history)")
-REQUIRED = ("dynamic_sections_reset_after_runtime_fields", "callable_object_defaults", "dotted_status_queries", "schemas_with_unnormalised_defaults", "fresh_default_checks", "callable_default_checks", "flag_maps_compared", "accepted_assignments_judged",
+REQUIRED = ("forwarding_setter_assignments_judged:partly-rejected", "equal_items_with_other_status_judged", "dynamic_sections_reset_after_runtime_fields", "callable_object_defaults", "dotted_status_queries", "schemas_with_unnormalised_defaults", "fresh_default_checks", "callable_default_checks", "flag_maps_compared", "accepted_assignments_judged",
             "rejected_ops_judged", "resets_judged", "loads_judged")
 ASSUMPTIONS = ["in-place mutation of a default list/dict does not make it user-defined (the statement says 'assigned or "
                "loaded')", "loads that fail are not judged (their partial effect is unspecified)"]
@@ -78,6 +78,39 @@ def generate(rng, ctx):
             if nodes:
                 p, _nd = rng.choice(nodes)
                 out.append({"op": "reset", "path": p, "route": rng.choice(["parent", "dotted"])})
+    # a computed field whose setter forwards a pair of values to two real fields of its configuration
+    for holder_path, holder in [("", schema)] + [(p, nd) for p, nd in history.all_paths(schema) if nd["kind"] == "schema" and "[]" not in p]:
+        leaves = [ch for ch in holder["fields"] if ch["kind"] == "field" and ch["family"] in ("int", "str", "port", "float", "bool", "host")
+                  and not ch["params"].get("default_callable")]
+        if len(leaves) >= 2 and rng.random() < 0.5 and all(ch["key"] != "vpair" for ch in holder["fields"]):
+            a, b = rng.sample(leaves, 2)
+            holder["fields"].append({"kind": "field", "key": "vpair", "family": "virtual", "params": {"returns": "v", "forward": [a["key"], b["key"]]}})
+            vp = (holder_path + "." if holder_path else "") + "vpair"
+            for _ in range(3):
+                good1 = gen.one_value(rng, a, "valid", env)
+                second = gen.one_value(rng, b, rng.choice(["invalid", "invalid", "valid"]), env)
+                if good1 is not None:
+                    out.insert(rng.randrange(len(out) + 1), {"op": "set_forward", "path": vp, "value": [good1, second]})
+    # lists of configuration types: an item at its defaults, then the same position loaded from a document that spells
+    # those very defaults out (equal content, other user-defined status), and the other way round
+    for p, nd in history.all_paths(schema):
+        if nd["kind"] == "field" and nd["family"] == "list" and "[]" not in p and nd.get("item") and nd["item"]["kind"] == "ctype":
+            dflt = model.defaults_tree(nd["item"], env)
+            if not isinstance(dflt, dict) or any(v is Unknown or isinstance(v, (dict, list, model.Hashed)) or v is None for v in dflt.values()):
+                continue
+            if model.accepts_tree(nd["item"], dflt, env)[0] is not True:
+                continue
+            parts = p.split(".")
+
+            def nest(v, parts=parts):
+                for seg in reversed(parts):
+                    v = {seg: v}
+                return v
+            pair = [{"op": "set", "route": "attr", "path": p, "value": [{}, {}]}, {"op": "load_tree", "tree": nest([dict(dflt), {}]), "equal_items": True}]
+            if rng.random() < 0.5:
+                pair = [{"op": "load_tree", "tree": nest([dict(dflt), dict(dflt)])}, {"op": "set", "route": "attr", "path": p, "value": [{}, dict(dflt)], "equal_items": True}]
+            at = rng.randrange(len(out) + 1)
+            out[at:at] = pair
     # dynamic sections: a field the schema does not declare is added at run time, then the SECTION is reset
     for p, nd in history.all_paths(schema):
         if nd["kind"] == "schema" and nd.get("dynamic") and "[]" not in p and rng.random() < 0.8:
@@ -175,6 +208,19 @@ def run(case, ctx, res):
         after = drv.snapshot()
         kind = out["kind"].split(":")[0]
         pred = out["pred"]
+        if kind == "set-forward":
+            if (out["raised"] is None) != out["label"]:
+                res.count("forwarding_setter_outcome_not_as_modelled")
+                continue
+            res.count("forwarding_setter_assignments_judged" + (":partly-rejected" if out.get("partial") else ""))
+            d = model.match(pred.values, after.values)
+            fd = flag_diff(pred.flags, after.flags)
+            if d or fd:
+                res.viol("M-state", "forwarding-setter:" + ("partial" if out.get("partial") else "full"), "step %d: a computed field forwards %r "
+                         "to two fields (%s): %s" % (idx, op["value"], "the second was rejected" if out.get("partial") else "both accepted",
+                                                     d or "; ".join(fd[:4])))
+                return
+            continue
         if out["raised"] is not None and kind == "reset":
             res.viol("M-state", "reset-raises", "step %d: reset_value of the declared field %r (route %s) raised %r" % (
                 idx, out["path"], op.get("route"), out["raised"]))
@@ -208,6 +254,8 @@ def run(case, ctx, res):
         if fd:
             res.viol("M-state", "flag:" + feat, "step %d: after %s at %r: %s" % (idx, out["kind"], out["path"], "; ".join(fd[:4])))
             return
+        if op.get("equal_items"):
+            res.count("equal_items_with_other_status_judged")
         if kind in ("set", "set-sub", "ctor"):
             acc += 1
             res.count("accepted_assignments_judged")
